@@ -6,7 +6,8 @@ Property theorems only (helper lemmas: `Proofs/ParseTotal.lean`; model: `Model/P
 `parseEthernet cfg d bs` is `ethernet(raw=bs)` (= `PacketIn.parsed`, openflow/__init__.py:182-185) for the parsers
 Ethernet → 802.1Q (nested) / LLC-SNAP → ARP / IPv4 (+options) → ICMP (echo, unreachable, time-exceeded with the quoted
 datagram, nested) / TCP (+option parser) / UDP, and LLDP with all its TLV classes, with every Python operation that can raise kept
-partial.  `cfg = Cfg.repaired` is /repo HEAD plus the proposed repairs D14, C15-1 … C15-4; `Cfg.head` is HEAD.  `d` is the
+partial.  `cfg = Cfg.repaired` is /repo HEAD plus the proposed repairs D14, C15-1 … C15-4; `Cfg.head` is HEAD
+(repairs C15-5 dhcp, C15-6 eap, C15-7 icmpv6 concern parsers outside the model).  `d` is the
 number of nested constructor activations the interpreter still allows (RecursionError beyond).  Layers handed to one of the
 un-modelled parsers (ipv6, icmpv6, dhcp, dns, rip, vxlan, igmp, gre, mpls, eapol/eap, the MPTCP option) end the chain as
 `Frame.foreign`: the theorems say nothing about what those classes do — hence `…_partial`; for them only the differential
